@@ -185,3 +185,82 @@ Proof.
   eexists. split; [vm_compute; reflexivity|]. split; [|vm_compute; auto].
   intros t H. do 4 (destruct t as [|t]; [vm_compute; reflexivity|]). lia.
 Qed.
+
+(* ---- the inheritance machinery as one more WRITER of the set (DerivedSet.InheritFrom, SubtractReactive) ---- *)
+(* whatever net mutation m the occurrence counts yield: the value step applies m and reports what value.Apply changed,
+   which is a true difference of the contents and folds to the new contents *)
+Lemma inherited_write_reports_applied m s :
+  let r := s_wr (scall_op (KInherit m)) s in
+  w_new r = s_apply s m /\ w_delta r = Some (s_applied s m) /\ w_ret r = s_applied s m
+  /\ s_legal_p s (s_applied s m) /\ s_apply s (s_applied s m) = s_apply s m.
+Proof.
+  simpl. split; [reflexivity|split; [reflexivity|split; [reflexivity|split]]].
+  - apply (s_wr_legal (SCompute (fun _ => m)) s). reflexivity.
+  - unfold s_apply, s_applied. simpl. apply N.bits_inj. intros n.
+    rewrite ?N.ldiff_spec, ?N.lor_spec, ?N.land_spec, ?N.ldiff_spec, ?N.lor_spec.
+    destruct (N.testbit s n), (N.testbit (fst m) n), (N.testbit (snd m) n); reflexivity.
+Qed.
+
+(* the theorems over all schedules, spelled out for the calls issued by a wired script (sources written, the target
+   written directly, InheritFrom / un-inherit, SubtractReactive) in ANY interleaving, repetition or subset: corollaries
+   of set_api_* - the premise only names the schedules meant *)
+Lemma wired_set_log_shape k s0s ws (sch : list (nat * option (op scall))) c b :
+  drawn_from (snd (wired_program k s0s ws)) sch ->
+  let s := sarun 0%N sch in
+  cbs s c = Some b ->
+  log b = initpart N (N * N) s_initD b ++ firstn (ndel b) (skipn (regat b) (hist s))
+  /\ regat b + ndel b <= length (hist s)
+  /\ val s = fold_left s_apply (hist s) 0%N.
+Proof. intros _ s H. destruct (set_api_log_shape 0%N sch c b H) as (A & B & _ & D & _). auto. Qed.
+Lemma wired_set_fold k s0s ws (sch : list (nat * option (op scall))) c b :
+  drawn_from (snd (wired_program k s0s ws)) sch ->
+  let s := sarun 0%N sch in
+  quiescent _ _ _ _ s -> cbs s c = Some b -> unsubd b = false ->
+  fold_log N (N * N) s_apply 0%N (log b) = val s.
+Proof. intros _ s Q H U. destruct (set_api_fold 0%N sch c b Q H U) as (_ & _ & _ & F). exact F. Qed.
+Lemma wired_set_true_diff k s0s ws (sch : list (nat * option (op scall))) :
+  drawn_from (snd (wired_program k s0s ws)) sch ->
+  chain N (N * N) s_apply s_legal_p 0%N (hist (sarun 0%N sch)).
+Proof. intros _. apply set_api_true_diff. Qed.
+
+(* non-vacuity / regression: derived := NewDerivedSet(); derived.InheritFrom(source {}); a subscriber; thread 1 calls
+   derived.Add(0), thread 2 is the source's writer adding 0 (count 0 -> 1: net mutation "add 0"), thread 1 Delete(0),
+   thread 2 deletes 0 from the source (net "delete 0").  The subscriber is told (1,0), (0,0), (0,1), (0,0). *)
+Definition derived_script : list (wop scall) :=
+  [WInherit 0 [0]; WDir (Subscribe 0 false); WDir (Write (KApply (1, 0)%N)); WSrc 0 (KApply (1, 0)%N);
+   WDir (Write (KApply (0, 1)%N)); WSrc 0 (KApply (0, 1)%N)].
+Definition derived_schedule : list (nat * option (op scall)) :=
+  [(0, Some (Subscribe 0 false)); (0, None); (0, None); (0, None); (0, None);
+   (1, Some (Write (KApply (1, 0)%N))); (1, None); (1, None); (1, None); (1, None); (1, None); (1, None);
+   (2, Some (Write (KInherit (1, 0)%N))); (2, None); (2, None); (2, None); (2, None); (2, None); (2, None);
+   (1, Some (Write (KApply (0, 1)%N))); (1, None); (1, None); (1, None); (1, None); (1, None); (1, None);
+   (2, Some (Write (KInherit (0, 1)%N))); (2, None); (2, None); (2, None); (2, None); (2, None); (2, None)].
+Lemma derived_schedule_drawn : drawn_from (snd (wired_program WDerived [0%N] derived_script)) derived_schedule.
+Proof.
+  intros t o H. vm_compute in H. vm_compute.
+  repeat (destruct H as [H|H]; [first [discriminate H | injection H as <- <-; repeat (first [left; reflexivity | right])]|]).
+  contradiction.
+Qed.
+Example derived_run :
+  let s := sarun 0%N derived_schedule in
+  thr s 0 = Idle /\ thr s 1 = Idle /\ thr s 2 = Idle /\ val s = 0%N /\ hist s = [(1, 0); (0, 0); (0, 1); (0, 0)]%N
+  /\ option_map (fun b => (log b, unsubd b)) (cbs s 0) = Some ([(1, 0); (0, 0); (0, 1); (0, 0)]%N, false).
+Proof. vm_compute. repeat split. Qed.
+
+(* the same schedule with a write path that reports the REQUESTED net mutations: the subscriber is told "0 added" twice
+   and "0 deleted" twice - the second report of each is not a difference of the contents (the fold still agrees, only the
+   strict reading sees it) *)
+Lemma refuted_inherited_reports_requested :
+  let s := s_run_requested (sapi_sch derived_schedule) (init N (N * N) sop (N * N) 0%N) in
+  (forall t, t < 3 -> thr s t = Idle)
+  /\ option_map (fun b => log b) (cbs s 0) = Some [(1, 0); (1, 0); (0, 1); (0, 1)]%N
+  /\ ~ chain N (N * N) s_apply s_legal_p 0%N (hist s).
+Proof.
+  split; [|split].
+  - intros t H. do 3 (destruct t as [|t]; [vm_compute; reflexivity|]). lia.
+  - vm_compute. reflexivity.
+  - intros C.
+    assert (E : hist (s_run_requested (sapi_sch derived_schedule) (init N (N * N) sop (N * N) 0%N)) = [(1, 0); (1, 0); (0, 1); (0, 1)]%N)
+      by (vm_compute; reflexivity).
+    rewrite E in C. clear E. simpl in C. destruct C as (_ & (L & _) & _). vm_compute in L. discriminate L.
+Qed.
